@@ -225,6 +225,29 @@ func (p *Program) verifyFunc(key string, mode string) (u *Unit) {
 			}
 		}
 		for _, en := range ens {
+			// quantified clauses of functions with several returns are checked per return
+			// site (smaller queries, the failing path is named)
+			if hasQuantExpr(en.E) && len(f.rets) > 2 && len(f.rets) <= 16 {
+				for ri, r := range f.rets {
+					pe := f.funcEnv(r.st, st)
+					for k, v := range post.vars {
+						pe.vars[k] = v
+					}
+					for i, rv := range r.vals {
+						if i < len(fc.Results) {
+							pe.vars[fc.Results[i]] = rv
+						}
+					}
+					g, err := pe.evalBool(en.E)
+					if err != nil {
+						u.Err = fmt.Sprintf("ensures %q: %v", en.Text, err)
+						return u
+					}
+					e.addObl(&Obligation{Name: fmt.Sprintf("%s#ensures[%s]@return%d", shortKey(key), clauseLabel(en), ri), Kind: "ensures", Func: shortKey(key),
+						Label: clauseLabel(en), Text: en.Text, Guard: r.reach, Goal: g, Contract: fc, Pos: relPath(p, p.Fset.Position(r.pos).String())})
+				}
+				continue
+			}
 			g, err := post.evalBool(en.E)
 			if err != nil {
 				u.Err = fmt.Sprintf("ensures %q: %v", en.Text, err)
@@ -286,6 +309,21 @@ func letUsesResults(l *Let, fc *FuncContract) bool {
 	}
 	for _, n := range names {
 		if exprMentions(l.E, n) {
+			return true
+		}
+	}
+	return false
+}
+
+func hasQuantExpr(e *Expr) bool {
+	if e == nil {
+		return false
+	}
+	if e.Op == "forall" || e.Op == "exists" {
+		return true
+	}
+	for _, a := range e.Args {
+		if hasQuantExpr(a) {
 			return true
 		}
 	}
